@@ -50,8 +50,10 @@ func toInt(d *internal.Decimal) *big.Int {
 //	Floor(NaN) = NaN
 func Floor(x *internal.Decimal) (*big.Int, error) {
 	var d internal.Decimal
-	_, err := internal.BaseContext.Floor(&d, x)
-	_, _ = internal.BaseContext.Quantize(&d, &d, 0)
+	// Use a context without a precision limit: the result is an integer
+	// and must not be rounded to the 34 digits of internal.BaseContext.
+	_, err := apd.BaseContext.Floor(&d, x)
+	_, _ = apd.BaseContext.RoundToIntegralExact(&d, &d)
 	return toInt(&d), err
 }
 
@@ -64,8 +66,10 @@ func Floor(x *internal.Decimal) (*big.Int, error) {
 //	Ceil(NaN) = NaN
 func Ceil(x *internal.Decimal) (*big.Int, error) {
 	var d internal.Decimal
-	_, err := internal.BaseContext.Ceil(&d, x)
-	_, _ = internal.BaseContext.Quantize(&d, &d, 0)
+	// Use a context without a precision limit: the result is an integer
+	// and must not be rounded to the 34 digits of internal.BaseContext.
+	_, err := apd.BaseContext.Ceil(&d, x)
+	_, _ = apd.BaseContext.RoundToIntegralExact(&d, &d)
 	return toInt(&d), err
 }
 
